@@ -7,6 +7,7 @@ import TealerModel.Lemmas.Cfg
 import TealerModel.Lemmas.StepEdge
 import TealerModel.Lemmas.Mirror
 import TealerModel.Lemmas.BlockWalk
+import TealerModel.Lemmas.ParseSubs
 namespace Tealer.C04
 
 /-- blocks partition the instructions in source order: concatenating the created blocks in creation order
@@ -231,5 +232,57 @@ theorem C04_block_shape (prog : List Ins) (nexts : List (List Nat)) (h : insNext
   intro blk hb a b hab
   obtain ⟨h1, h2⟩ := BlockWalk.inner_successor prog nexts h blk hb a b hab
   exact ⟨h1, h2, (BlockShape.createBB_shape prog nexts (CfgL.insNext_length prog nexts h) blk hb a b hab).2⟩
+
+/-- THE CALL EDGE: a `callsub l` step lands on the instruction the label resolves to, and the block of that instruction is
+    the entry block of the subroutine `l` of the parse result — "the callee's entry block after callsub" -/
+theorem C04_call_edge (prog : List Ins) (t : Teal) (hp : parseTeal prog = .ok t)
+    (e : Avm.Env) (s s' : Avm.State) (i : Ins) (l : String) (hi : prog[s.pc]? = some i) (hop : i.op = .callsub l)
+    (hs : Avm.step prog e s = .next s') :
+    ∃ nexts sub, insNext prog = .ok nexts ∧ sub ∈ t.subs ∧ sub.name = l ∧
+      blockOfIns (createBB prog nexts).1 s'.pc = .ok sub.entry ∧ s'.calls = s.calls ++ [s.pc + 1] := by
+  have hl : l ∈ callsubLabels prog := by
+    unfold callsubLabels
+    rw [List.mem_eraseDups]
+    exact List.mem_filterMap.mpr ⟨i, List.mem_of_getElem? hi, by simp [hop]⟩
+  obtain ⟨nexts, sub, li, hn, hsub, hname, hli, hentry⟩ := ParseSubs.parse_sub_of_label prog t hp l hl
+  unfold Avm.step at hs
+  simp only [hi, hop] at hs
+  split at hs
+  · rename_i p hpos
+    simp only [Avm.Outcome.next.injEq] at hs
+    subst hs
+    have := (StepEdge.labelPos_lookup prog l p).mp hpos
+    rw [hli] at this
+    cases this
+    exact ⟨nexts, sub, hn, hsub, hname, hentry, rfl⟩
+  · cases hs
+
+/-- THE RETURN EDGE.  The call stack of any reachable state holds only positions that follow a `callsub` (the invariant
+    holds for the empty stack and is preserved by every step); hence a `retsub` step lands — unless it returns past the end
+    of the program — in a block that is in the successor list of the block whose last instruction is the matching
+    `callsub`: "after retsub the block following the matching callsub". -/
+theorem C04_calls_invariant (prog : List Ins) (e : Avm.Env) (s s' : Avm.State) (h : BlockWalk.CallsOk prog s.calls)
+    (hs : Avm.step prog e s = .next s') : BlockWalk.CallsOk prog s'.calls :=
+  BlockWalk.callsOk_step prog e s s' h hs
+
+theorem C04_calls_invariant_init (prog : List Ins) : BlockWalk.CallsOk prog ({} : Avm.State).calls := by
+  intro a ha; cases ha
+
+theorem C04_return_edge (prog : List Ins) (nexts : List (List Nat)) (bs : List RawBlock) (h : insNext prog = .ok nexts)
+    (hg : CfgWF.graphOf prog nexts = .ok bs)
+    (e : Avm.Env) (s s' : Avm.State) (i : Ins) (hi : prog[s.pc]? = some i) (hop : i.op = .retsub)
+    (hinv : BlockWalk.CallsOk prog s.calls) (hs : Avm.step prog e s = .next s') :
+    s'.pc = prog.length ∨
+    ∃ c l ic B B', s'.pc = c + 1 ∧ prog[c]? = some ic ∧ ic.op = .callsub l ∧
+      blockOfIns (createBB prog nexts).1 c = .ok B ∧ ((createBB prog nexts).1[B]!).getLast? = some c ∧
+      blockOfIns (createBB prog nexts).1 s'.pc = .ok B' ∧ B' ∈ (bs[B]!).next := by
+  unfold Avm.step at hs
+  simp only [hi, hop] at hs
+  split at hs
+  · rename_i p hp
+    simp only [Avm.Outcome.next.injEq] at hs
+    subst hs
+    exact BlockWalk.return_edge prog nexts bs h hg s.calls hinv p hp
+  · cases hs
 
 end Tealer.C04
